@@ -68,6 +68,51 @@ let verdict case impl =
       | t :: r -> (match check t with None -> first r | Some v when String.sub v 0 4 = "viol" -> v
                                      | Some v -> (match first r with "ok" -> v | w when String.sub w 0 4 = "viol" -> w | _ -> v)) in
     first observed
+  | ["P"; idem; metrics; pol; tg], (_ :: _ as observed) ->
+    let policy = if pol = "-" then None else
+        let i = String.index pol ':' in
+        Some (nat_of_int (int_of_n (n_of_hex (String.sub pol 0 i))),
+              n_of_hex (String.sub pol (i + 1) (String.length pol - i - 1))) in
+    let cfg = { is_idempotent = (idem = "1");
+                metrics_and_policy = (if metrics = "1" then Some (Option.map fst policy) else None) } in
+    let iv = match policy with Some (_, i) -> i | None -> N0 in
+    let targets = if tg = "-" then [] else
+        List.map (fun e -> let i = String.index e ':' in
+                   (n_of_hex (String.sub e 0 i), n_of_hex (String.sub e (i + 1) (String.length e - i - 1))))
+          (split_on ',' tg) in
+    let ev_of_string s =
+      let i = String.index s '@' in
+      let id = n_of_hex (String.sub s 1 (i - 1)) and t = n_of_hex (String.sub s (i + 1) (String.length s - i - 1)) in
+      match s.[0] with 'b' -> EvBegin (id, t) | 'e' -> EvEnd (id, t) | _ -> failwith "bad event" in
+    let string_of_ev = function
+      | EvBegin (id, t) -> "b" ^ hex_of_n id ^ "@" ^ hex_of_n t
+      | EvEnd (id, t) -> "e" ^ hex_of_n id ^ "@" ^ hex_of_n t in
+    let string_of_bobs o =
+      (if o.bo_events = [] then "-" else String.concat "," (List.map string_of_ev o.bo_events))
+      ^ "/" ^ string_of_res o.bo_res ^ "/" ^ hex_of_n o.bo_end in
+    let model () = String.concat " " (List.sort_uniq compare (List.map string_of_bobs (btimed_runs cfg iv targets))) in
+    let bobs_of_string s = match String.split_on_char '/' s with
+      | [ev; r; e] ->
+        (try Some { bo_events = (if ev = "-" then [] else List.map ev_of_string (split_on ',' ev));
+                    bo_res = res_of_string r; bo_end = n_of_hex e }
+         with _ -> None)
+      | _ -> None in
+    let check tok =
+      match bobs_of_string tok with
+      | None ->
+        if contains tok "/hang/" || contains tok "/spin/" || tok = "panic"
+        then Some ("viol no-return " ^ tok ^ " model=" ^ model ())
+        else Some ("diff unreadable " ^ tok)
+      | Some o ->
+        (* the property predicate is cheap: it is evaluated on EVERY observed trace *)
+        if not (prop_trace cfg targets o) then Some ("viol trace=" ^ tok ^ " model=" ^ model ())
+        else if baccept cfg iv targets o then None
+        else Some ("diff trace=" ^ tok ^ " model=" ^ model ()) in
+    let rec first = function
+      | [] -> "ok"
+      | t :: r -> (match check t with None -> first r | Some v when String.sub v 0 4 = "viol" -> v
+                                     | Some v -> (match first r with "ok" -> v | w when String.sub w 0 4 = "viol" -> w | _ -> v)) in
+    first observed
   | _ -> "error unknown-case"
 
 let () = run_lines verdict
